@@ -15,7 +15,11 @@ def value_multisets(tier, rnd, max_size=3):
     singles = [(v,) for v in vs]
     core = [0, "s", None, [], [0], ["s"], {}, {"a": 0}, {"a": "s"}, {"a": 0, "b": "s"}, {"b": 0}, {1: 0}, (0,), (), set(), {0},
             [{"a": 0}], [{"b": "s"}], [[]], [[0]], {"a": {"x": 0}}, {"a": {"y": "s"}}, corpus.FX.Left(), corpus.FX.Right(), corpus.FX.Base]
-    core += [[int, str], [str, int], [corpus.FX.Base, corpus.FX.Left], [len, corpus.FX.a_function],
+    class StrKey(str):
+        pass
+    core += [{StrKey("a"): 1}, {StrKey("a"): 1, StrKey("b"): 2, StrKey("c"): 3}, {"k%d" % i: i for i in range(4)},
+             [[{"a": 1}, {"b": 2}], [{"c": 3}, {"d": 4}]], [{"a": 1}, {"b": 2}], [{"c": 3}, {"d": 4}], [{"id": 1}, {"id": 2, "name": "x"}], [{"a": 1}, {}],
+             [int, str], [str, int], [corpus.FX.Base, corpus.FX.Left], [len, corpus.FX.a_function],
              # dict lists whose element dicts differ in keys: merging gives TypedDicts with optional fields, merged again below
              [{"a": 1, "b": "x"}, {"a": 2}], [{"a": 3, "c": 2.5}, {"a": 4}], [{"a": 1}, {"b": "s"}], {"p": {"a": 1, "b": "x"}}, {"p": {"a": 2}}, {"p": {"c": 1.5}}]
     pairs = list(itertools.combinations_with_replacement(core, 2))
